@@ -3,3 +3,5 @@ pub mod code;
 pub mod element_parser;
 pub mod parser;
 pub mod tokenizer;
+#[cfg(feature = "verif-hooks")]
+pub mod verif;
